@@ -1363,6 +1363,21 @@ func (m *M) EvalArg(a any) Out {
 	return m.eval(a, env{local: m.Root, isRoot: true})
 }
 
+// RunLocal evaluates one call with @ bound to local instead of to the root, as
+// the body of an iteration or a step after an asm is evaluated. local is
+// mutated by set/del on @-paths.
+func (m *M) RunLocal(call []any, local any) Out {
+	name, _ := call[0].(string)
+	if name == "" || !m.Fns[name] {
+		return unknown()
+	}
+	o := m.call(name, call[1:], env{local: local})
+	if o.Unknown {
+		m.RootUnknown = true
+	}
+	return o
+}
+
 // IsCall reports whether a is a list headed by a known function name.
 func (m *M) IsCall(a any) bool {
 	_, _, ok := m.isCall(a)
